@@ -404,6 +404,11 @@ impl Configuration {
         region_dispatch!(self, get_datarate, dr)
     }
 
+    /// Whether `dr` is defined in the region and may be used for uplinks
+    pub(crate) fn uplink_datarate_valid(&self, dr: DR) -> bool {
+        region_dispatch!(self, uplink_datarate_valid, dr)
+    }
+
     pub(crate) fn check_tx_power(&self, tx_power: u8) -> Option<Option<u8>> {
         region_dispatch!(self, check_tx_power, tx_power).map(Some)
     }
@@ -548,6 +553,11 @@ pub(crate) trait RegionHandler {
     ) -> (bool, bool);
 
     fn get_datarate(&self, dr: u8) -> Option<&Datarate>;
+
+    /// Whether `dr` is defined and may be used for uplinks
+    fn uplink_datarate_valid(&self, dr: DR) -> bool {
+        self.get_datarate(dr as u8).is_some()
+    }
 
     fn get_default_datarate(&self) -> DR {
         DR::_0
